@@ -82,11 +82,16 @@ CHECKS.update({
         note="A bearing within 7.5 degrees of the wind direction is accepted as 'a few degrees' (largest observed error 4.8 degrees); directions between the multiples of 15 degrees are not sampled; the roughness-height node is not observed (the unstable log-law speed there is of rounding size and the property says nothing about it).", design="4/C08"),
 })
 
+CHECKS.update({
+    "C19": dict(technique="TLC model checking of three specifications of the reference model's finite case analysis - spec/KMTypes.tla (an abstract interpreter of NumPy number kinds over the statement-by-statement transcription of estimateFootprint / estimateZ0), spec/KMGrid.tla (which output cell holds which [upwind, |crosswind|] value for wind directions in multiples of 90 degrees), spec/KMZ0.tla (the smoothing window as a window on the circle) - + execution of every enumerated state on the real functions, the value tokens instantiated by the published equations written independently in the harness (scipy Gamma functions)",
+        text="KMTypes: every combination of int/float kinds of the eleven inputs of estimateFootprint and of the five arrays of estimateZ0 x stable/unstable x wind direction given or not / smoothing on or off (8320 initial states); NoLossyStore (no masked store casts a float expression into an integer array), ResultIsFloat, WellFormed. Each combination is run on the real functions with integer-valued Python int / np.int32 / np.int64 / float / np.float64 inputs and must equal the all-float call (1e-12); the helpers' result kinds are observed directly. KMGrid: extents with partial cells, receptor on a cell centre, edge, corner or outside the grid, wind from 0/90/180/270 (thorough also 360, 450, -90) or none; CellByCell (the code's polar-coordinate route = the geometric definition), ZeroDownwind, SymmetricAboutAxis, Coordinates, RotationAboutReceptor, Periodic, StagesAgree. Each configuration is run on the real function for several parameter sets (stable, unstable, near neutral) and resolutions (float and int): shape, cell-centre coordinates, non-negativity, exact zeros downwind, every cell equal to crosswind-integrated footprint x Gaussian x cell area at relative 1e-9. KMZ0: every one-degree bin x half windows 1..89: EveryObservationOnce, WindowIsCircular, RotationInvariant; the real estimateZ0 is run with one observation per half degree against the circular median and under six common rotations, the raw values against the diabatic log law. In the same replay: arbitrary wind angles pointwise (60 / 1500 random grids) and the captured mass against the regularised incomplete gamma under refinement (60/240/960 cells). Seven negative controls; the pinned-switch model (HelperAlloc = like) predicts exactly the 4160 kind combinations on which the pinned code differs.",
+        note="Integer-typed inputs carry integer values. float32 inputs are outside the property's list of types. m uses the measured wind speed (Eq. 36) and U the diabatic log law (Eq. 31), as the anchors name them. Wind directions of estimateZ0 lie in [0, 360); half windows of 90 degrees and more are not circular in the code (negative control MC_KMZ0_neg_wide; default 22). The limit statement (mass under refinement) is checked at three resolutions with an absolute error bound of 2e-3 at the finest, observed 1e-5.", design="4/C19"),
+})
+
 NOT_APPLICABLE = {
     "C01": "asymptotic numerical accuracy against an ODE boundary-value solution: no discrete state/transition content for a TLA+ model; needs a numerical differential oracle (different technique)",
     "C09": "real-valued identities of transcendental similarity formulas and floating-point arange rounding; nothing for TLC (integers only) to enumerate",
     "C17": "accuracy/round-trip of an equirectangular projection against a great-circle oracle: floating-point trigonometry only; the two axis signs are observed in C08",
-    "C19": "one pure real function compared with a published closed form (Gamma functions): no state, no finite case analysis with an exact oracle",
 }
 
 
